@@ -223,7 +223,9 @@ def _where(e):
 # ---------------------------------------------------------------------------------------------------
 
 ODD = ["\0", "٣", "１", "²", "৩", "x", "Z", "T", "-", "+", ":", ".", ",", " ", "/", "'", "\"", "\\", "%", "é", "İ", "ß", "ǅ", "日", "\U0001d7d8",
-       "‏", "﻿", "A", "P", "M", "0", "9", "\n"]
+       "‏", "﻿", "A", "P", "M", "0", "9", "\n",
+       # text that means something to str.format / % / Template when an error message is built from the input
+       "{", "}", "{}", "{0}", "{x}", "%s", "%(a)s", "{0!r}", "$x"]
 
 
 def mutate(rng, s):
@@ -809,6 +811,9 @@ def run(ctx):
     ann, amp = te.cases_c08(ctx)
     ctx.check_cases("parse.annual-partial-patterns", ann, te.check_annual)
     ctx.check_cases("parse.empty-am-pm-designators", amp, te.check_emptyampm)
+    meta, h24 = te.cases_c08_more(ctx)
+    ctx.check_cases("parse.format-metacharacters", meta, te.check_format_meta)
+    ctx.check_cases("parse.hour24-at-range-end", h24, te.check_hour24_last_day)
     import texthist
     texthist.run_history(ctx, [("random", ctx.scale(2, 40)), ("culture", ctx.scale(1, 20)), ("width", ctx.scale(1, 20))])
     ctx.check_cases("create.template", create_template_cases(ctx), c07.wrap_skips(ctx, "create.template", oracle_create_template))
@@ -853,7 +858,9 @@ def replay_op(op, failure):
         fn = {"parse.builtin": oracle_builtin_text, "parse.custom": oracle_custom_text, "create.malformed": oracle_create, "create.template": oracle_create_template, "parse.template": oracle_template_text, "create.sequence": oracle_create_sequence,
               "text.history": __import__("texthist").oracle_history,
               "parse.annual-partial-patterns": __import__("text_entrypoints").check_annual,
-              "parse.empty-am-pm-designators": __import__("text_entrypoints").check_emptyampm}[name]
+              "parse.empty-am-pm-designators": __import__("text_entrypoints").check_emptyampm,
+              "parse.format-metacharacters": __import__("text_entrypoints").check_format_meta,
+              "parse.hour24-at-range-end": __import__("text_entrypoints").check_hour24_last_day}[name]
         r = fn(case)
         return None if (r and "skip" in r) else r
     return c07.oracle_text_op(op.split(" "))
